@@ -151,6 +151,32 @@ func (c *Ctx) collectFns() {
 		}
 	}
 	sort.Slice(c.AllFns, func(i, j int) bool { return c.AllFns[i].String() < c.AllFns[j].String() })
+	buildSites(c.AllFns)
+	gAddrTaken = map[*ssa.Function]bool{}
+	gInvoked = map[string]bool{}
+	for _, f := range c.AllFns {
+		for _, b := range f.Blocks {
+			for _, i := range b.Instrs {
+				cc := callCommon(i)
+				if cc != nil && cc.IsInvoke() {
+					gInvoked[cc.Method.Name()] = true
+				}
+				for _, op := range i.Operands(nil) {
+					if op == nil || *op == nil || (cc != nil && !cc.IsInvoke() && *op == cc.Value) {
+						continue
+					}
+					switch x := (*op).(type) {
+					case *ssa.Function:
+						gAddrTaken[x] = true
+					case *ssa.MakeClosure:
+						if fn, ok := x.Fn.(*ssa.Function); ok {
+							gAddrTaken[fn] = true
+						}
+					}
+				}
+			}
+		}
+	}
 }
 
 // ---- obligations -----------------------------------------------------------
